@@ -6,7 +6,7 @@ agreement of statement and serializer, non-re-entrant stages launched once.  Not
 (IndexError/KeyError on data, anything inside rdflib)."""
 import ast
 from ..report import Ob, Floor
-from ..rules import sig, null, raises, enums, layout, choice, domain, direction
+from ..rules import sig, null, raises, enums, layout, choice, domain, direction, kinds
 from .. import exceptions
 
 S = "shexer.shaper:Shaper."
@@ -46,6 +46,8 @@ def check(ctx, tier):
     o_memo = [o for o in o_memo if "first-run-guard" in o.key]
     dunder_liveness(ctx, o_calls + o_self)
     obs = o_calls + o_self + o_exc + o_attr + o_abs + o_null + o_enum + o_ret + o_raise + o_lay + o_choice + o_dom + o_dir + o_memo
+    o_kind, n_kind = ctx.attempt(kinds.object_iri_reads, ctx, "D-g", default=([], 0))
+    obs += o_kind
     exceptions.apply(obs)
     floors = [Floor("R-SIG call sites bound against a signature", len(o_calls), 850),
               Floor("R-SIG methods with self-attribute reads", len(o_self), 500),
